@@ -323,3 +323,25 @@ def _sign_walk(fa: FuncAnalysis, stmts, param: str, s: str) -> Optional[str]:
             continue
         raise NotASignTable(f"statement `{ast.unparse(st)[:60]}` makes the result depend on more than the sign")
     return None
+
+
+def loop_item(fa, loop, i=None):
+    """Value id (Poly) of a `for` loop's target inside its body: the whole item, or element i of a tuple target.
+    Rules name loop variables through this, never by their spelling."""
+    t = loop.target
+    if i is not None:
+        t = t.elts[i]
+    return fa.sym.ev(ast.Name(id=t.id, ctx=ast.Load()), fa.node_of(loop.body[0]).id)
+
+
+def spec(fa, text: str, at=None):
+    """A specification written in source syntax (over parameters / attributes / the function's own local names), normalised
+    by the same evaluator as the code: Poly. `at` = CFG node id (default: function entry, where only parameters are bound)."""
+    return fa.sym.ev(ast.parse(text, mode="eval").body, fa.cfg.entry.id if at is None else at)
+
+
+def rel_is(p, op: str, poly) -> bool:
+    """p (CMP normal form) is `poly op 0`; for == / != the sign of poly is immaterial."""
+    if p[0] != "rel" or p[1] != op:
+        return False
+    return p[4] == poly or (op in ("==", "!=") and p[4] == -poly)
